@@ -201,15 +201,17 @@ impl BlockDir {
         let bytes = self.get_block_content(&address.hash, monitor).await?;
         let len = address.len as usize;
         let start = address.start as usize;
-        let end = start + len;
         let actual_len = bytes.len();
-        if end > actual_len {
-            return Err(Error::BlockTooShort {
-                hash: address.hash.clone(),
-                actual_len,
-                referenced_len: len,
-            });
-        }
+        let end = match start.checked_add(len) {
+            Some(end) if end <= actual_len => end,
+            _ => {
+                return Err(Error::BlockTooShort {
+                    hash: address.hash.clone(),
+                    actual_len,
+                    referenced_len: len,
+                });
+            }
+        };
         Ok(bytes.slice(start..end))
     }
 
